@@ -186,7 +186,7 @@ def run(ctx):
                             ctx.mismatch("score differs from a fresh object fitted on the same data (state leaked from earlier calls)", dict(case, step=k), impl=s, spec=fs)
                             bad = True
                             break
-                        key = (o, fitted[o], di)
+                        key = (o, fitted[o], fit_meta[o] is not None, di)          # same object, same fit arguments (data AND metadata), same validation data
                         if methods[o] != "montecarlo" and key in last_score and last_score[key] != s:
                             ctx.mismatch("repeating the same score call returned a different vector", dict(case, step=k), impl=s, spec=last_score[key])
                             bad = True
